@@ -140,9 +140,16 @@ def model_exhausts_budget(pool_texts: list[str], op: dict) -> bool:
     e = H.build_pool(pool_texts)[i]
     etxt = wire.expr(e)
     names = sorted(e._variable_names) or ["x"]
+    if wire.size(e) > 500:
+        return True         # too large for the tree model to simplify in reasonable time: the warning alone decides
     b = Batch()
     idx = [b.ask(f"F0 asexpr {kind} {x} {etxt}") for kind in ("P", "FE") for x in names[:4]]
-    b.run()
+    try:
+        b.answers = None
+        from ..core import run_model, Infra
+        b.answers = run_model(b.lines, timeout=120.0)
+    except Infra:
+        return True
     for j in idx:
         k, rest = parse_answer(b[j])
         if k == "ok" and rest[0] == "1":
